@@ -397,6 +397,15 @@ def make_interp(dag, funcs):
     return NumpyInterpreter(dag, funcs)
 
 
+def persistent_names(dag):
+    """every persistent name (<t>, <dt>, <state>*, <p>*) a statement of the method declares as read or written"""
+    out = set()
+    for ph in dag.phases.values():
+        for st in ph.statements:
+            out |= set(st.get_written_variables()) | set(st.get_read_variables())
+    return {n for n in out if is_persistent(n)}
+
+
 class GeneratedStepper:
     """Class emitted by the Python code generator, with the IR-name -> attribute map."""
 
@@ -406,7 +415,10 @@ class GeneratedStepper:
         self.source = self.cg(dag)
         from dagrt.codegen.utils import exec_in_new_namespace
         self.cls = exec_in_new_namespace(self.source)[name]
-        self.global_map = dict(self.cg._name_manager._global_map._dict)
+        # IR name -> attribute, asked of the generator's name manager one persistent name at a time (its public
+        # lookup), not read out of its internal table
+        nm = getattr(self.cg, "_name_manager", None) or getattr(self.cg, "name_manager")
+        self.global_map = {n: nm[n] for n in sorted(persistent_names(dag) | {"<t>", "<dt>"})}
 
     def new(self, funcs):
         return self.cls(funcs)
